@@ -12,6 +12,9 @@ GAME_NOTE = ("Trusted: the laws of chess as written in spec/Chess.tla (cross-che
 SEARCH_NOTE = ("Trusted: spec/Chess.tla, the poll hook, TLC. The search is driven in-process on the real functions with a shared real table; "
                "histories beyond the enumerated bounds are sampled.")
 
+SESSION_NOTE = ("Trusted: spec/Chess.tla, the sched hooks, TLC, the driver's isready fencing. Timing judgements use a 2.5 s tolerance; "
+                "a GUI issues the next go only after the previous one was answered.")
+
 CHECKS = {
     "C01": ("TLA+ reference rules (Chess.tla) explored by TLC; TLC-enumerated position families replayed into the real move "
             "generator and random/search-shaped traces of it validated by TraceGame.tla (trace validation both directions)",
@@ -62,6 +65,20 @@ CHECKS = {
             "members, game states reached through a move prefix) every string of move shape is sent to the real binary and TLC requires "
             "accepted <=> text of a legal move, accepted => the shown position is Apply(pos, m), refused => unchanged.", "6-C12",
             "Upper-case promotion letters and over-long strings are outside the universe (grey). " + GAME_NOTE),
+    "C13": ("TimeBudget.tla (Allowed = 0..remaining; engine formula checked by TLC on the boundary grid) + TraceSession.tla judging info time and announce time of the real binary on the TLC-enumerated grid",
+            "TLC enumerates the boundary grid of clocks, increments and move times for both sides; every point is sent to the release and the "
+            "checked binary as a go command and TLC requires 0 <= allotted <= time remaining for the mover, no overflow, and for small budgets "
+            "that the bestmove arrives within budget plus a wide tolerance.", "6-C13", SESSION_NOTE + " Clock values are limited to 2^31-1 ms."),
+    "C14": ("Uci.tla (PlusCal model of stdin loop, search thread, timer thread, flag objects, mutex) checked by TLC for all interleavings; its GUI command histories replayed on the real binary with each schedule window stretched by the sched hooks; TraceSession.tla judges transcripts",
+            "TLC verifies at-most-one-bestmove, no refusal when quiescent, no panic, right position searched, bounded go answered and isready "
+            "answered over all interleavings of 4-5 commands and 2 gos (and reproduces the three pinned defects when the repaired orders are "
+            "switched off); every command history of the model is run on the real binary with one named window stretched, plus the named race "
+            "scripts and long randomized sessions on release and checked builds.", "6-C14", SESSION_NOTE),
+    "C15": ("Capacity.tla (stack arithmetic of every interface history) checked by TLC; the histories nearest each capacity, self-play, hill-climbed maximal-mobility boards and all rules/search drivers executed on the checked build (debug assertions + unsafe-precondition checks)",
+            "TLC proves peak stack index <= 512 for every history of imports, position moves, searches of any depth and self-play under the "
+            "repaired guards; the boundary histories (397-400 plies then go depth d / infinite), self-play to the end, maximal-mobility boards "
+            "found by hill-climbing over accepted FENs, and the rules and search drivers run on builds where an out-of-range access panics.", "6-C15",
+            "That an access is out of range is observed by Rust's own checks in the checked build; paths no driver reaches are missed."),
     "C16": ("Eval.tla piece-square sum (tables dumped from the compiled constants) judged on every observation; mirrored twin game",
             "Every observation's score must be the sum under one king table; a colour-mirrored twin game is played move for move and must "
             "have the negated score; TLC checks the mirror law on the reference model.", "6-C16", GAME_NOTE),
